@@ -11,7 +11,8 @@ Definition ev_dur (c : scfg) (b : lev) : Z := if le_typ b =? 5 then c_lease c el
 
 (* what the table remembers of an event seen on the wire: the reservation behind it, for the client the monitor calls le_pid *)
 Definition ev_backed (c : scfg) (t : table) (b : lev) : Prop :=
-  exists m o, le_pid b = pid c m o /\ reserved_in t (le_ip b) (get_duid c (d_chaddr m) (o_cid o)) (le_arr b + ev_dur c b)%Z.
+  exists m o, le_pid b = pid c m o /\ (le_arr b <= le_sent b)%Z /\
+              reserved_in t (le_ip b) (get_duid c (d_chaddr m) (o_cid o)) (le_sent b + ev_dur c b)%Z.
 
 Lemma reserved_in_grows t t' n d u : grows t t' -> reserved_in t n d u -> reserved_in t' n d u.
 Proof.
@@ -38,7 +39,7 @@ Lemma c01_clause_holds c t a b m f y : ev_backed c t b ->
   le_ip a = y -> le_pid a = pid c m (decode_options (d_options m)) -> le_sent a = of_t f ->
   not_others (of_t f) t y (rc_duid c m) -> c01_clause c a b = true.
 Proof.
-  intros (mb & ob & Hpid & (p & e & Hn & Hi & Hd & Hu)) Hy Hpa Hs Hno. unfold c01_clause.
+  intros (mb & ob & Hpid & Hle0 & (p & e & Hn & Hi & Hd & Hu)) Hy Hpa Hs Hno. unfold c01_clause.
   destruct (le_ip b =? le_ip a) eqn:Eip; [|reflexivity]. cbn [negb orb]. apply N.eqb_eq in Eip.
   destruct (bytes_eqb (le_pid b) (le_pid a)) eqn:Epid; [reflexivity|]. cbn [orb].
   assert (Hdd : get_duid c (d_chaddr mb) (o_cid ob) <> rc_duid c m).
@@ -59,15 +60,15 @@ Proof.
   cbn [flat_map]. rewrite c01_scan_app.
   destruct (accepted_round_TInv c now t r t' Hdur Hinv Hnow Ha) as [Hinv' Hg].
   assert (Hpast' : forall b, In b past -> ev_backed c t' b).
-  { intros b Hb. destruct (Hpast b Hb) as (mb & ob & A & B). exists mb, ob. split; [exact A|eapply reserved_in_grows; eauto]. }
-  destruct (accepted_round_event c now t r t' Hcw H1 (proj1 Hinv) Hnow Ha) as [->|(src & dst & m & f & ty & y & Hdc & Hk & Ho & Ht & Hty & -> & Hno & Hres)].
+  { intros b Hb. destruct (Hpast b Hb) as (mb & ob & A & A2 & B). exists mb, ob. split; [exact A|]. split; [exact A2|eapply reserved_in_grows; eauto]. }
+  destruct (accepted_round_event c now t r t' Hcw H1 (proj1 Hinv) Hnow Ha) as [->|(src & dst & m & f & ty & y & Hdc & Hk & Ho & Ht & Hty & -> & Hno & Hres & Hown)].
   - cbn [c01_scan andb]. rewrite app_nil_r. eapply IH; eauto.
   - apply andb_true_iff. split.
     + cbn [c01_scan]. rewrite andb_true_r. cbn [lease_event le_typ]. destruct (ty =? 5) eqn:Ety; [|reflexivity].
       apply forallb_forall. intros b Hb. change (c01_clause c (lease_event c r m f ty y) b = true).
       eapply (c01_clause_holds c t _ b m f y); eauto.
     + eapply IH; eauto. intros b Hb. apply in_app_or in Hb as [Hb|[<-|[]]]; [apply Hpast'; exact Hb|].
-      exists m, (decode_options (d_options m)). split; [reflexivity|]. cbn [lease_event le_ip le_arr].
+      exists m, (decode_options (d_options m)). split; [reflexivity|]. cbn [lease_event le_ip le_arr le_sent]. split; [exact Ht|].
       eapply reserved_in_earlier; [|exact Hres]. unfold ev_dur. cbn [lease_event le_typ].
       destruct Hty; subst ty; cbn; lia.
 Qed.
@@ -80,4 +81,199 @@ Theorem accepted_history_c01 c h : cfg_wire_ok c -> cfg_srv_ok c -> durations_ok
 Proof.
   intros Hcw Hcs Hdur Hw Hs Ha. apply accepted_acc_run in Ha. unfold mon_C01, events.
   eapply (accepted_history_c01_gen c Hcw Hcs Hdur h 0%Z (initial_table c) []); eauto; [apply initial_TInv; exact Hcs|intros b []].
+Qed.
+
+(* ---------- C05 (ii): once acknowledged, every OFFER/ACK to that client before the lease has elapsed carries the same address ---------- *)
+Lemma same_pid_same_duid c m1 o1 m2 o2 : pid c m1 o1 = pid c m2 o2 ->
+  get_duid c (d_chaddr m1) (o_cid o1) = get_duid c (d_chaddr m2) (o_cid o2).
+Proof.
+  unfold pid, get_duid, usable_cid.
+  destruct (reserved_ip c (d_chaddr m1)) eqn:R1, (reserved_ip c (d_chaddr m2)) eqn:R2.
+  - intros H. injection H as ->. reflexivity.
+  - destruct (4 <=? len (o_cid o2)) eqn:L2; cbn [andb].
+    + destruct (internal_prefix (o_cid o2)); cbn [negb]; intros H; [injection H as H; congruence|discriminate].
+    + intros H. injection H as H. congruence.
+  - destruct (4 <=? len (o_cid o1)) eqn:L1; cbn [andb].
+    + destruct (internal_prefix (o_cid o1)); cbn [negb]; intros H; [injection H as H; congruence|discriminate].
+    + intros H. injection H as H. congruence.
+  - replace (len (o_cid o1) <? 4) with (negb (4 <=? len (o_cid o1))) by lia.
+    replace (len (o_cid o2) <? 4) with (negb (4 <=? len (o_cid o2))) by lia.
+    destruct (4 <=? len (o_cid o1)) eqn:L1, (4 <=? len (o_cid o2)) eqn:L2; cbn [andb negb orb];
+      destruct (internal_prefix (o_cid o1)) eqn:P1, (internal_prefix (o_cid o2)) eqn:P2; cbn [negb];
+      intros H; try discriminate H; injection H as H; try (rewrite H; reflexivity); congruence.
+Qed.
+
+Lemma c05_scan_app c l1 : forall past l2, c05_scan c past (l1 ++ l2) = c05_scan c past l1 && c05_scan c (past ++ l1) l2.
+Proof.
+  induction l1 as [|a l1 IH]; intros past l2; cbn [app c05_scan].
+  - rewrite app_nil_r. reflexivity.
+  - rewrite IH, <- app_assoc. cbn [app]. rewrite andb_assoc. reflexivity.
+Qed.
+
+Theorem accepted_history_c05_scan_gen c : cfg_wire_ok c -> cfg_srv_ok c -> durations_ok c ->
+  forall h now t past, TInv c now t -> Forall wf_round h -> seq_times now h -> acc_run c t h ->
+  (forall b, In b past -> ev_backed c t b) -> c05_scan c past (flat_map (round_events c) h) = true.
+Proof.
+  intros Hcw Hcs Hdur. induction h as [|r h IH]; intros now t past Hinv Hw Hs Ha Hpast; [reflexivity|].
+  cbn [acc_run] in Ha. destruct Ha as (t' & Ha & Hrest). destruct Hs as [Hnow Hs]. inversion Hw; subst.
+  cbn [flat_map]. rewrite c05_scan_app.
+  destruct (accepted_round_TInv c now t r t' Hdur Hinv Hnow Ha) as [Hinv' Hg].
+  assert (Hpast' : forall b, In b past -> ev_backed c t' b).
+  { intros b Hb. destruct (Hpast b Hb) as (mb & ob & A & A2 & B). exists mb, ob. split; [exact A|]. split; [exact A2|eapply reserved_in_grows; eauto]. }
+  destruct (accepted_round_event c now t r t' Hcw H1 (proj1 Hinv) Hnow Ha) as [->|(src & dst & m & f & ty & y & Hdc & Hk & Ho & Ht & Hty & -> & Hno & Hres & Hown)].
+  - cbn [c05_scan andb]. rewrite app_nil_r. eapply IH; eauto.
+  - apply andb_true_iff. split.
+    + cbn [c05_scan]. rewrite andb_true_r. apply forallb_forall. intros b Hb.
+      destruct (le_typ b =? 5) eqn:Etb; [|reflexivity]. cbn [negb orb].
+      destruct (bytes_eqb (le_pid b) (le_pid (lease_event c r m f ty y))) eqn:Epid; [|reflexivity]. cbn [negb orb].
+      destruct (le_sent (lease_event c r m f ty y) <? le_arr b + c_lease c)%Z eqn:Elt; [|reflexivity]. cbn [negb orb].
+      replace (le_ip b =? le_ip (lease_event c r m f ty y)) with true; [reflexivity|]. symmetry. apply N.eqb_eq.
+      cbn [lease_event le_ip le_sent le_pid] in *. apply bytes_eqb_eq in Epid.
+      destruct (Hpast b Hb) as (mb & ob & Hpb & Hle0 & (p & e & Hn & Hi & Hd & Hu)). rewrite <- Hi.
+      apply (Hown p e Hn).
+      * rewrite Hd. unfold rc_duid. apply same_pid_same_duid. rewrite <- Hpb. exact Epid.
+      * unfold live, expired. destruct (e_perm e) eqn:Hp; [reflexivity|]. cbn. destruct Hu as [Hu|Hu]; [discriminate|].
+        unfold ev_dur in Hu. rewrite Etb in Hu. lia.
+    + eapply IH; eauto. intros b Hb. apply in_app_or in Hb as [Hb|[<-|[]]]; [apply Hpast'; exact Hb|].
+      exists m, (decode_options (d_options m)). split; [reflexivity|]. cbn [lease_event le_ip le_arr le_sent]. split; [exact Ht|].
+      eapply reserved_in_earlier; [|exact Hres]. unfold ev_dur. cbn [lease_event le_typ].
+      destruct Hty; subst ty; cbn; lia.
+Qed.
+
+Theorem accepted_history_c05_scan c h : cfg_wire_ok c -> cfg_srv_ok c -> durations_ok c -> Forall wf_round h -> seq_times 0%Z h ->
+  accepted c h -> c05_scan c [] (events c h) = true.
+Proof.
+  intros Hcw Hcs Hdur Hw Hs Ha. apply accepted_acc_run in Ha. unfold events.
+  eapply (accepted_history_c05_scan_gen c Hcw Hcs Hdur h 0%Z (initial_table c) []); eauto; [apply initial_TInv; exact Hcs|intros b []].
+Qed.
+
+(* ---------- C05 (i): an offered address requested back within the hold, with no foreign ARP answer, is acknowledged ---------- *)
+Lemma entry_in_net c t p e : cfg_srv_ok c -> SInv c t -> nth_error t p = Some e -> net_from (c_db c) <= e_ip e <= net_to (c_db c).
+Proof.
+  intros Hc S Hn. pose proof (si_entries c t S p e Hn) as Ho. unfold owner_ok in Ho. destruct (e_perm e).
+  - destruct Ho as (mac & Hin & _). eapply cs_range; eauto.
+  - destruct Ho as (Hd & He & _). destruct (cs_dyn c Hc He). unfold in_dyn in Hd. lia.
+Qed.
+
+Lemma not_free_foreign r mac x : probe_free (r_arp r) mac x = false -> foreign_answer r mac x = true.
+Proof.
+  unfold probe_free, probe_outcome, foreign_answer. destruct (find_resp x (r_arp r)) as [a|] eqn:Ef; [|discriminate].
+  destruct (ar_delay a <? arp_tries * arp_timeout)%Z eqn:Ed; [|discriminate]. cbn [fst]. intros Hm.
+  destruct (find_resp_ip _ _ _ Ef) as [Hi Hin]. apply existsb_exists. exists a. split; [exact Hin|].
+  rewrite Hi, N.eqb_refl, Hm, Ed. reflexivity.
+Qed.
+
+Lemma c05_hold_app c : forall h1 past h2,
+  c05_hold c past (h1 ++ h2) = c05_hold c past h1 && c05_hold c (past ++ flat_map (round_events c) h1) h2.
+Proof.
+  induction h1 as [|r h1 IH]; intros past h2; cbn [app c05_hold flat_map].
+  - rewrite app_nil_r. reflexivity.
+  - rewrite IH, <- app_assoc, andb_assoc. reflexivity.
+Qed.
+
+Lemma filter_head_in {A} (P : A -> bool) l b rest : filter P l = b :: rest -> In b l /\ P b = true.
+Proof. intros H. assert (Hin : In b (filter P l)) by (rewrite H; left; reflexivity). apply filter_In in Hin. exact Hin. Qed.
+
+(* the clause of c05_hold for one round *)
+Definition c05_hold_round (c : scfg) (past : list lev) (r : round) : bool :=
+  match parse_in (r_pkt r) with
+  | Some i =>
+    if (o_msgtype (pi_opt i) =? 3) && (pi_dst i =? bcast_ip) && opt_eqb (o_sid (pi_opt i)) (Some (c_self_ip c)) &&
+       negb (bytes_eqb (d_chaddr (pi_msg i)) (c_self_mac c)) then
+      match o_reqip (pi_opt i) with
+      | Some x =>
+        let p := pid c (pi_msg i) (pi_opt i) in
+        match filter (fun b => bytes_eqb (le_pid b) p) (rev past) with
+        | b :: _ => if (le_typ b =? 2) && (le_ip b =? x) && (le_sent b <=? r_t r)%Z && (r_t r <=? le_sent b + hold_ns)%Z &&
+                       negb (foreign_answer r (d_chaddr (pi_msg i)) x)
+                    then existsb (fun e => (le_typ e =? 5) && (le_ip e =? x)) (round_events c r) else true
+        | [] => true end
+      | None => true end
+    else true
+  | None => true end.
+
+Lemma opt_eqb_some a v : opt_eqb a (Some v) = true -> a = Some v.
+Proof. destruct a as [x|]; cbn; [|discriminate]. intros H. apply N.eqb_eq in H. subst. reflexivity. Qed.
+
+Lemma accepted_round_c05_hold c now t r t' past : cfg_wire_ok c -> cfg_srv_ok c -> wf_round r -> TInv c now t -> (now <= r_t r)%Z ->
+  accept_round c t r = RAcc t' -> (forall b, In b past -> ev_backed c t b) -> c05_hold_round c past r = true.
+Proof.
+  intros Hcw Hcs Hw [[U S] Hup] Hnow Ha Hpast. unfold c05_hold_round.
+  destruct (parse_in (r_pkt r)) as [i|] eqn:Epi; [|reflexivity].
+  match goal with |- (if ?b then _ else _) = true => destruct b eqn:Econd; [|reflexivity] end.
+  destruct (o_reqip (pi_opt i)) as [x|] eqn:Ereq; [|reflexivity].
+  destruct (filter (fun b => bytes_eqb (le_pid b) (pid c (pi_msg i) (pi_opt i))) (rev past)) as [|b rest] eqn:Efil; [reflexivity|].
+  match goal with |- (if ?b then _ else _) = true => destruct b eqn:Ecl; [|reflexivity] end.
+  rewrite !andb_true_iff in Econd. rewrite !andb_true_iff in Ecl. destruct Econd as (((Hmt & Hdst) & Hsid) & Hnself). destruct Ecl as ((((Hty & Hip) & Hs1) & Hs2) & Hnf).
+  apply filter_head_in in Efil as [Hbin Hbp]. apply in_rev in Hbin. apply bytes_eqb_eq in Hbp.
+  unfold parse_in in Epi. destruct (decode_chain (r_pkt r)) as [[[src dst] m]|] eqn:Hdc; [|discriminate]. injection Epi as <-.
+  cbn [pi_msg pi_opt pi_dst] in *. apply N.eqb_eq in Hmt, Hdst, Hip. subst dst. apply opt_eqb_some in Hsid. apply negb_true_iff in Hnf.
+  set (o := decode_options (d_options m)) in *.
+  (* the offer is still held: the client is bound to x at the arrival *)
+  destruct (Hpast b Hbin) as (mb & ob & Hpb & _ & (p & e & Hn & Hi & Hd & Hu)).
+  assert (Hdd : e_duid e = rc_duid c m).
+  { rewrite Hd. unfold rc_duid. apply same_pid_same_duid. rewrite <- Hpb. exact Hbp. }
+  assert (Ur : unique_live (r_t r) t) by (eapply unique_live_mono; eauto).
+  assert (Hl : live (r_t r) e = true).
+  { unfold live, expired. destruct (e_perm e) eqn:Hp; [reflexivity|]. cbn. destruct Hu as [Hu|Hu]; [discriminate|].
+    unfold ev_dur in Hu. apply N.eqb_eq in Hty. rewrite Hty in Hu. change (2 =? 5) with false in Hu. cbv iota in Hu. apply Z.leb_le in Hs2. lia. }
+  assert (Hb : bound_ip (r_t r) (rc_duid c m) t = Some x).
+  { unfold bound_ip. assert (F : find_live (r_t r) (KDuid (rc_duid c m)) t 0 = Some p).
+    { apply find_live_some_iff; [exact Ur|]. exists e. split; [split; assumption|]. cbn. apply bytes_eqb_eq. exact Hdd. }
+    rewrite F, Hn. cbn. rewrite Hi, Hip. reflexivity. }
+  assert (Hkind : msg_kind c m o = KRequest).
+  { unfold msg_kind. rewrite bytes_eqb_sym'. apply negb_true_iff in Hnself. rewrite Hnself.
+    unfold gf_dhcpmsg_MsgTypeDiscover, gf_dhcpmsg_MsgTypeRequest. rewrite Hmt. reflexivity. }
+  assert (Hclass : classify_request c bcast_ip src o = Some x).
+  { unfold classify_request. rewrite Hsid, Ereq, !N.eqb_refl. reflexivity. }
+  assert (Hmr : in_managed_range (c_db c) (Some x) = true).
+  { pose proof (entry_in_net c t p e Hcs S Hn) as Hr. rewrite Hi, Hip in Hr. unfold in_managed_range, to_uip.
+    replace ((x <? net_from (c_db c)) || (net_to (c_db c) <? x)) with false by lia. reflexivity. }
+  destruct (accepted_round_cases c t r t' Ha) as [Hcase _].
+  destruct Hcase as [Hdc' ? ?|? ? ? Hdc' Hk' ? ?|? ? ? Hdc' Hk' Hdrop ? ?|? ? ? ts Hdc' o' Hk' ? Hs' Hts Hov ? ?|src' dst' m' ts y f Hdc' o' tl Hk' Hd' Hs' Ho Hy Hfr Ht Hdl Hts Hle Hov Hh
+                    |src' dst' m' Hdc' o' Hk' Hsil ? ?|src' dst' m' des f Hdc' o' Hk' Hcl' Hmr' Hb' Ho Hfr Ht Hdl ?
+                    |src' dst' m' des f Hdc' o' Hk' Hcl' Hmr' Hb' Hh' Hp' Ho Hfr Ht Hdl|src' dst' m' des f t1 Hdc' o' Hk' Hcl' Hmr' Hb' Hh' Hp' Ho Hfr Ht Hdl Hu'];
+    rewrite Hdc in Hdc'; try discriminate Hdc'; injection Hdc' as <- <- <-;
+    try (exfalso; match type of Hk' with _ = ?K => assert (Hx' : KRequest = K) by (rewrite <- Hkind; exact Hk') end; discriminate Hx').
+  - (* silent: impossible *)
+    exfalso. destruct Hsil as [Hn'|(d' & Hc' & Hm')].
+    + assert (Hx' : Some x = None) by (rewrite <- Hclass; exact Hn'). discriminate.
+    + assert (Hx' : Some x = Some d') by (rewrite <- Hclass; exact Hc'). injection Hx' as <-. rewrite Hmr in Hm'. discriminate.
+  - (* NAK for an unbound client: impossible *)
+    exfalso. assert (Hx' : Some x = Some des) by (rewrite <- Hclass; exact Hcl'). injection Hx' as <-. apply Hb'. exact Hb.
+  - (* NAK on a conflict: a foreign host answered *)
+    exfalso. assert (Hx' : Some x = Some des) by (rewrite <- Hclass; exact Hcl'). injection Hx' as <-.
+    rewrite (not_free_foreign r (d_chaddr m) x Hp') in Hnf. discriminate.
+  - (* ACK *)
+    assert (Hx' : Some x = Some des) by (rewrite <- Hclass; exact Hcl'). injection Hx' as <-.
+    pose proof (in_managed_to_uip _ _ Hmr) as Eu. destruct (to_uip_bound _ _ _ Eu) as [_ Hbd].
+    assert (Hyb : x < 4294967296) by (destruct Hcw as (_ & Hc2 & _); lia).
+    rewrite (round_events_lease c r src bcast_ip m f 5 x Hcw Hw Hdc Ho Hyb (or_intror eq_refl) Hfr).
+    cbn. rewrite N.eqb_refl. reflexivity.
+Qed.
+
+Theorem accepted_history_c05_hold_gen c : cfg_wire_ok c -> cfg_srv_ok c -> durations_ok c ->
+  forall h now t past, TInv c now t -> Forall wf_round h -> seq_times now h -> acc_run c t h ->
+  (forall b, In b past -> ev_backed c t b) -> c05_hold c past h = true.
+Proof.
+  intros Hcw Hcs Hdur. induction h as [|r h IH]; intros now t past Hinv Hw Hs Ha Hpast; [reflexivity|].
+  cbn [acc_run] in Ha. destruct Ha as (t' & Ha & Hrest). destruct Hs as [Hnow Hs]. inversion Hw; subst.
+  cbn [c05_hold]. apply andb_true_iff. split.
+  - exact (accepted_round_c05_hold c now t r t' past Hcw Hcs H1 Hinv Hnow Ha Hpast).
+  - destruct (accepted_round_TInv c now t r t' Hdur Hinv Hnow Ha) as [Hinv' Hg].
+    eapply IH; eauto. intros b Hb.
+    assert (Hpast' : forall b, In b past -> ev_backed c t' b).
+    { intros b0 Hb0. destruct (Hpast b0 Hb0) as (mb & ob & A & A2 & B). exists mb, ob. split; [exact A|]. split; [exact A2|eapply reserved_in_grows; eauto]. }
+    apply in_app_or in Hb as [Hb|Hb]; [apply Hpast'; exact Hb|].
+    destruct (accepted_round_event c now t r t' Hcw H1 (proj1 Hinv) Hnow Ha) as [He|(src & dst & m & f & ty & y & Hdc & Hk & Ho & Ht & Hty & He & Hno & Hres & Hown)];
+      rewrite He in Hb; [destruct Hb|]. destruct Hb as [<-|[]].
+    exists m, (decode_options (d_options m)). split; [reflexivity|]. cbn [lease_event le_ip le_arr le_sent]. split; [exact Ht|].
+    eapply reserved_in_earlier; [|exact Hres]. unfold ev_dur. cbn [lease_event le_typ]. destruct Hty; subst ty; cbn; lia.
+Qed.
+
+Theorem accepted_history_c05_hold c h : cfg_wire_ok c -> cfg_srv_ok c -> durations_ok c -> Forall wf_round h -> seq_times 0%Z h ->
+  accepted c h -> c05_hold c [] h = true.
+Proof.
+  intros Hcw Hcs Hdur Hw Hs Ha. apply accepted_acc_run in Ha.
+  eapply (accepted_history_c05_hold_gen c Hcw Hcs Hdur h 0%Z (initial_table c) []); eauto; [apply initial_TInv; exact Hcs|intros b []].
 Qed.
